@@ -46,3 +46,11 @@ Print Assumptions C17_enum_values_agree.
 Theorem C17_golden_crc_extras : golden_mismatches "common" = [].
 Proof. exact golden_crc_extras. Qed.
 Print Assumptions C17_golden_crc_extras.
+
+(* every released message of the shipped dialects (395 rows keyed by id and Go type name, the
+   "development" dialect left out) keeps the CRC_EXTRA it was released with: a different value is a
+   different message on the wire (Spec/CrcSnapshot.v) *)
+Theorem C17_released_messages_keep_crc_extra :
+  snapshot_mismatches = [] /\ Nat.leb 350 snapshot_rows_found = true.
+Proof. exact released_messages_keep_crc_extra. Qed.
+Print Assumptions C17_released_messages_keep_crc_extra.
